@@ -93,6 +93,7 @@ type Flow struct {
 	In       map[*Event]State
 	volatile map[types.Object]bool
 	rangeIdents map[*ast.Ident]bool
+	feasCache   map[edgeKey]bool
 }
 
 // Flow computes (once) the dataflow.
